@@ -8,14 +8,17 @@ prop = [json.loads(l) for l in open(f"{V}/properties.jsonl") if json.loads(l)["i
 out = f"/tmp/seed{rnd}"
 os.makedirs(f"{out}/{pid}", exist_ok=True)
 prev = []
-for d in sorted(glob.glob(f"{V}/seeded/{pid}-*/notes.md")):
+NOPREV = os.environ.get("SEED_NOPREV") == "1"   # round 5 on: the agent sees the property text only
+for d in [] if NOPREV else sorted(glob.glob(f"{V}/seeded/{pid}-*/notes.md")):
     first = open(d).read().split("\n")[0].lstrip("# ").strip()
     prev.append(first)
 a = prop["anchors"]
 mech = str(a.get("mechanism", ""))
+ALSO = "" if NOPREV else ", and different mechanisms from the changes ALREADY FOUND listed below"
+FOUND = "" if NOPREV else "ALREADY FOUND (do not repeat these; pick other code sites / other mechanisms named above):\n" + "\n".join(f"  - {p}" for p in prev)
 txt = f"""You are helping to test a verification effort for the Rust workspace "warcraft-rs" (readers/writers for World of Warcraft file formats: MPQ, M2, ADT, WMO, BLP, DBC, WDT, WDL, a C FFI and a CLI). You have your own scratch git worktree of the repository at /tmp/wt{rnd}-{pid} (a detached checkout; work ONLY there — never touch /repo or /verif, and do not read anything under /verif). The sandbox has no network; build with `cargo ... --offline` (set CARGO_NET_OFFLINE=true). The worktree has its own `target/` directory; builds take a few minutes.
 
-Below is a semantic property that the code base is supposed to satisfy. Your job: craft TWO different, realistic code changes (bugs a developer could plausibly introduce: an off-by-one, a wrong boundary, a dropped case, a refactor that changes a corner, an "optimisation" that is wrong for some inputs, two sites that each look fine alone) each of which BREAKS this property, while the workspace still compiles and the EXISTING test suite still passes (no test edited, removed or added to the repo's suite). Prefer changes that need something specific to manifest — an unusual input, a particular size relative to a boundary, a specific multi-step sequence of operations, a particular configuration or interleaving — NOT ones that ordinary use or a trivial smoke test would expose at once. The two changes should touch different mechanisms, and different mechanisms from the changes ALREADY FOUND listed below.
+Below is a semantic property that the code base is supposed to satisfy. Your job: craft TWO different, realistic code changes (bugs a developer could plausibly introduce: an off-by-one, a wrong boundary, a dropped case, a refactor that changes a corner, an "optimisation" that is wrong for some inputs, two sites that each look fine alone) each of which BREAKS this property, while the workspace still compiles and the EXISTING test suite still passes (no test edited, removed or added to the repo's suite). Prefer changes that need something specific to manifest — an unusual input, a particular size relative to a boundary, a specific multi-step sequence of operations, a particular configuration or interleaving — NOT ones that ordinary use or a trivial smoke test would expose at once. The two changes should touch different mechanisms{ALSO}.
 
 PROPERTY
 --------
@@ -31,8 +34,7 @@ ANCHOR FILES: {', '.join(a.get('files', []))}
 
 MECHANISMS: {mech}
 
-ALREADY FOUND (do not repeat these; pick other code sites / other mechanisms named above):
-""" + "\n".join(f"  - {p}" for p in prev) + f"""
+{FOUND}
 
 --------
 
